@@ -593,3 +593,69 @@ func c06WidthTables(r *core.Run) {
 		r.Unknown("R06.13", "LookupFieldFmt: fixed-length arms", fd.Pos(), "no arm for a type listed in ByteSizes found")
 	}
 }
+
+// c06FmtTable: R06.15. LookupFieldFmt maps a data type to the format codec named after it (asetypes.BIGTIMEN ->
+// BigTimeNFieldFmt; the convention holds for every arm of the reviewed tree). The codec decides which bytes follow
+// the data type in a ROWFMT/PARAMFMT (length width, precision/scale, blob class id), and the library's own reader and
+// writer both go through this table, so a wrong entry keeps them in agreement with each other while both disagree
+// with the server.
+func c06FmtTable(r *core.Run) {
+	p := r.Prog
+	tpk := p.Pkg("tds")
+	fd := funcDecl(tpk, p.Obj("tds", "LookupFieldFmt"))
+	if fd == nil || fd.Body == nil {
+		r.Unknown("R06.15", "tds.LookupFieldFmt", token.NoPos, "declaration not found")
+		return
+	}
+	n := 0
+	ast.Inspect(fd.Body, func(nd ast.Node) bool {
+		cc, ok := nd.(*ast.CaseClause)
+		if !ok {
+			return true
+		}
+		var names []string
+		for _, e := range cc.List {
+			if o := usedObj(tpk.TypesInfo, e); o != nil {
+				if _, isConst := o.(*types.Const); isConst {
+					names = append(names, o.Name())
+				}
+			}
+		}
+		if len(names) == 0 {
+			return true
+		}
+		var lits []string
+		var at token.Pos
+		for _, st := range cc.Body {
+			ast.Inspect(st, func(x ast.Node) bool {
+				cl, ok := x.(*ast.CompositeLit)
+				if !ok {
+					return true
+				}
+				if tv, has := tpk.TypesInfo.Types[cl]; has {
+					if nt, isN := tv.Type.(*types.Named); isN && strings.HasSuffix(nt.Obj().Name(), "FieldFmt") {
+						lits = append(lits, strings.TrimSuffix(nt.Obj().Name(), "FieldFmt"))
+						at = cl.Pos()
+					}
+				}
+				return true
+			})
+		}
+		for _, name := range names {
+			n++
+			key := "LookupFieldFmt: codec of " + name
+			switch {
+			case len(lits) == 0:
+				r.Bad("R06.15", key, cc.Pos(), "the arm for "+name+" creates no field format")
+			case len(lits) > 1 || !strings.EqualFold(lits[0], name):
+				r.Bad("R06.15", key, at, "the data type "+name+" is given the format codec "+strings.Join(lits, "/")+"FieldFmt, not the one named after it: the bytes that follow the type in ROWFMT/PARAMFMT (length width, scale, precision, class id) are read and written as those of another type — the library agrees with itself and disagrees with the server")
+			default:
+				r.OK("R06.15", key, at, lits[0]+"FieldFmt")
+			}
+		}
+		return true
+	})
+	if n == 0 {
+		r.Unknown("R06.15", "LookupFieldFmt: arms", fd.Pos(), "no arm found")
+	}
+}
